@@ -2,6 +2,7 @@ import QV.Drive.Util
 import QV.Drive.CircJson
 import QV.Drive.C09
 import QV.Model.Algo
+import QV.Model.Codec
 /-! JSON handlers for C16 (`c16.*`). -/
 namespace QV.Drive.C16
 open Lean QV QV.Types QV.Amp QV.Algo QV.Drive
@@ -45,8 +46,13 @@ def decodeOp (j : Json) : R Json := do
   let algo ← j.getObjValAs? String "algo"
   let ty ← QV.Drive.C09.parseTy (← j.getObjVal? "ty")
   let n ← j.getObjValAs? Nat "n"
-  let istr ← getBits j "istr"
   let q := getQuirks j
+  -- an `int` reading: `format_outcome(out: int, out_len)` = the digits of `bin(out)`, right-padded like a string
+  -- (quirk `formatOutcomeIntPadRight`, the code as it is); repaired: zero-filled on the left to `out_len` first
+  let istr ← match j.getObjValAs? Nat "int" with
+    | .ok v => pure (if q.formatOutcomeIntPadRight then QV.Codec.formatOutcomeInt v
+                     else (QV.Codec.zfill n (binDigits v)).map (· == '1'))
+    | .error _ => getBits j "istr"
   match algo with
   | "dj" => pure (Json.mkObj [("out", djOutJ (djDecode q ty n istr)), ("trigger", toJson (djDecodeTriggers ty))])
   | _ => pure (Json.mkObj [("out", QV.Drive.C09.valJ (argDecode ty n istr))])
